@@ -10,4 +10,9 @@ let table : (string * (z list -> z list)) list = [
   ("px", run_px);
   ("c18", run_c18);
   ("c17", run_c17);
+  ("fill_spans", run_fill_spans);
+  ("line_edge", run_line_edge);
+  ("fill_px", run_fill_px);
+  ("aruns", run_aruns);
+  ("aa_spans", run_aa_spans);
 ]
